@@ -134,6 +134,17 @@ func genTransfer(seed uint64, tier string) KScenario {
 		from := int64(r.Range(0, 3000))
 		sc.Net.Outages = append(sc.Net.Outages, WOutage{Dir: r.N(3), FromMS: from, ToMS: from + int64(r.Pick(50, 500, 2000, int(idle)-500, int(idle)+3000))})
 	}
+	if len(sc.Net.Outages) == 0 && r.P(0.04) {
+		// the server falls silent (for the client) between its handshake flight and HANDSHAKE_DONE, for longer than the
+		// handshake idle timeout but shorter than the idle timeout in force: the client, whose handshake is complete but not
+		// confirmed, must sit it out
+		idle = int64(r.Pick(15000, 30000))
+		sc.Cfg.IdleMS = [2]int64{idle, idle}
+		sc.Cfg.Retry, sc.Cfg.ChainLen = false, 0
+		l := max(1, sc.Net.LatencyUS/1000)
+		from := 2*l + int64(r.N(int(l)+1))
+		sc.Net.Outages = append(sc.Net.Outages, WOutage{Dir: 1, FromMS: from, ToMS: from + int64(r.Pick(5500, 7000, int(idle)-2000))})
+	}
 	n := r.Pick(1, 1, 2, 3, 5, 12)
 	if sc.Cfg.MaxStreams[0] > 0 {
 		n = r.Pick(3, 5, 8)
